@@ -389,6 +389,12 @@ def gen_scenario(rng, max_reqs=3, max_pairs=3, small=False, malformed=False, mix
             sc.resps[-1].form10 = rng.random() < 0.4
             sc.resps[-1].bellenum = rng.random() < 0.5
             uid += 1
+    if malformed and rng.random() < 0.15:
+        # an instruction the base executor has no handler for (RuntimeError "unknown instr type"); for the
+        # bookkeeping model this is just an instruction that raises (a store to a non-existent array)
+        sp = rng.choice(sc.subs)
+        sp.emit("meas_basis Q%d M0 %d %d %d %d" % (sp.rb, rng.randrange(32), rng.randrange(32), rng.randrange(32), 4),
+                {"a": "store", "addr": -1, "idx": 0, "val": 0})
     for sp in sc.subs:
         for req in sp.reqs:
             if not req._waited and not (malformed and rng.random() < 0.5):
@@ -561,6 +567,9 @@ class Oracle:
         self.violations = []
         self.mixed = False
         self.known_uids = {r.uid for r in sc.resps}
+        self.expected_issue = []     # true keys of requests issued by the step just executed
+        self.true_key = {}           # id(obj) -> (remote, purpose by the stack, creator?)
+        self.true_order = {}         # true key -> [id(obj)] in issue order
         self.foreign_reported = False
         self.unaccepted_reported = set()
 
@@ -589,6 +598,16 @@ class Oracle:
                         self.req_objs[id(e)] = e
                         self.req_order.setdefault(key, []).append(id(e))
                         self.req_count[id(e)] = 0
+                        # the key the request belongs to by the SCENARIO: (remote node, purpose id the network
+                        # stack reports for (remote node, socket), role) — independent of where the executor
+                        # filed it
+                        tk = self.expected_issue.pop(0) if self.expected_issue else key
+                        self.true_key[id(e)] = tk
+                        self.true_order.setdefault(tk, []).append(id(e))
+                        if tk != key:
+                            self.bad("a request is filed under (remote node, id, role) %s but the network stack "
+                                     "reports purpose %s for its (remote node, socket): responses of that "
+                                     "socket cannot reach it" % (key, tk[1]), filed=key, expected=tk)
         for app, um in ex._qubit_unit_modules.items():
             snap["units"][app] = list(um)
         return snap
@@ -603,6 +622,10 @@ class Oracle:
             per_key_pending.setdefault(key, []).append(spec)
             d = ex._epr_create_requests if key[2] else ex._epr_recv_requests
             lst = d.get((key[0], key[1]), [])
+            if not lst:
+                # nothing filed under the response's key; is a request for this (node, purpose, role)
+                # outstanding all the same (filed elsewhere)?
+                lst = [self.req_objs[o] for o in self.true_order.get(key, []) if self.req_objs[o].pairs_left != 0]
             if not lst:
                 continue
             head = lst[0]
@@ -626,7 +649,7 @@ class Oracle:
         ndel = {}
         for u in self.delivered:
             ndel[resp_by_uid[u].key()] = ndel.get(resp_by_uid[u].key(), 0) + 1
-        for key, order in self.req_order.items():
+        for key, order in self.true_order.items():
             if per_key_pending.get(key):
                 continue
             have = ndel.get(key, 0)
@@ -791,6 +814,8 @@ def enc_instr(ins):
         return [m, ins.slice.address.address] + rg(ins.slice.start) + rg(ins.slice.stop)
     if m == "wait_single":
         return [m, ins.entry.address.address] + rg(ins.entry.index)
+    if m == "meas_basis":
+        return [m] + rg(ins.reg0) + rg(ins.reg1) + [ins.imm0.value, ins.imm1.value, ins.imm2.value, ins.imm3.value]
     raise ValueError("harness: no controller-model encoding for " + m)
 
 
@@ -963,6 +988,9 @@ class Replayer:
             self.stopped = True
             return
         rec["obs"] = canon_real(ex, self.uid2idx)
+        for a in acts:
+            if a.get("a") in ("create", "recv"):
+                self.oracle.expected_issue.append((a["remote"], a["purpose"], a["a"] == "create"))
         self.snap = self.oracle.after(ex, self.snap, tok, self.resp_by_uid, waited)
         self.steps.append(rec)
 
